@@ -107,7 +107,10 @@ def run(ck, ix, tier):
     if f is None:
         raise AnalysisError("pint._unpickle not found")
     ck.analysed(f)
-    cfg = cfg_of(f)
+    from .. import shape as _shu
+    from ..cfg import CFG
+    fnode = _shu.inline_helpers(ix, f)        # an extracted private helper (e.g. _register_unit_names(arg)) is looked through
+    cfg = CFG(fnode)
     ctor = nodes_with(cfg, lambda x: isinstance(x, ast.Call) and isinstance(x.func, ast.Name) and x.func.id == "cls")
     loop = [n.id for n in cfg.nodes if n.kind == "for" and norm(n.ast) == "args"]
     parse = nodes_with(cfg, lambda x: isinstance(x, ast.Call) and call_name(x) == "parse_units" and "application_registry" in norm(x.func))
@@ -116,14 +119,26 @@ def run(ck, ix, tier):
         p = undominated(cfg, [c], loop)
         ck.check(bool(loop) and p is None, "G-DOM", "_unpickle|parse-before-construct", f.loc(cfg.nodes[c].ast), "every UnitsContainer argument is walked before the object is constructed", "the object is constructed before its unit names were registered", witness(cfg, p))
         ck.check(norm(cfg.nodes[c].ast) == "return cls(*args)", "G-PROV", "_unpickle|all-fields-forwarded", f.loc(cfg.nodes[c].ast), "cls(*args)", f"`{cfg.nodes[c].text()}` does not forward all pickled fields")
-    src = norm(f.node)
-    ck.check("if isinstance(arg, UnitsContainer):" in src and "for name in arg:" in src, "G-DOM", "_unpickle|every-name-of-every-container", f.loc(), "every name of every container", "_unpickle no longer walks every name of every UnitsContainer argument")
+    is_uc = lambda a_: isinstance(a_, ast.Call) and call_name(a_) == "isinstance" and len(a_.args) == 2 and norm(a_.args[1]) == "UnitsContainer"
+    pcalls = [x for x in ast.walk(fnode) if isinstance(x, ast.Call) and call_name(x) == "parse_units"]
+    okw = bool(pcalls)
+    for x in pcalls:
+        # parse_units(name) with name ranging over a container argument that was tested to be a UnitsContainer
+        fors = []
+        cur = getattr(x, "_parent", None)
+        while cur is not None:
+            if isinstance(cur, ast.For):
+                fors.append(cur)
+            cur = getattr(cur, "_parent", None)
+        okw = okw and len(fors) >= 2 and norm(fors[0].target) == norm(x.args[0]) and norm(fors[-1].iter) == "args" and norm(fors[0].iter) == norm(fors[-1].target) \
+            and _shu.holds_at(x, fnode, lambda a_: is_uc(a_) and norm(a_.args[0]) == norm(fors[0].iter), True)
+    ck.check(okw, "G-DOM", "_unpickle|every-name-of-every-container", f.loc(), "every name of every UnitsContainer argument", "_unpickle no longer walks every name of every UnitsContainer argument")
     # every name is parsed unconditionally: whether the registry still knows a prefixed unit is the registry's business
     # (its tables change with contexts); a guard derived from a cache or from a membership test can go stale
-    for c in [x for x in walk_local(f.node) if isinstance(x, ast.Call) and call_name(x) == "parse_units"]:
+    for c in [x for x in ast.walk(fnode) if isinstance(x, ast.Call) and call_name(x) == "parse_units"]:
         guards, cur = [], getattr(c, "_parent", None)
         inner_for = None
-        while cur is not None and cur is not f.node:
+        while cur is not None and cur is not fnode:
             if isinstance(cur, ast.For) and inner_for is None:
                 inner_for = cur
             if isinstance(cur, (ast.If, ast.Try, ast.While)) and inner_for is None:
@@ -145,9 +160,13 @@ def run(ck, ix, tier):
     ck.check("super().__getstate__() + (self.scale,)" in norm(g2.node) and "super().__setstate__(state[:-1])" in norm(s2.node) and "self.scale = state[-1]" in norm(s2.node), "G-PROV", "ParserHelper|state-appends-scale", g2.loc(), "container state + scale, unpacked symmetrically", "ParserHelper state no longer appends/strips the scale symmetrically")
     # copy hooks
     f = ix.func(PQ, "PlainQuantity.__copy__")
-    ck.check("self.__class__(copy.copy(self._magnitude), self._units)" in norm(f.node), "G-TAG", "PlainQuantity.__copy__|same-units-copied-magnitude", f.loc(), "copy of the magnitude, same units", "Quantity.__copy__ no longer rebuilds from a copy of the magnitude and the same units")
+    from .. import shape as _shk
+    def built(fq):
+        r_ = [_shk.resolve(r.value, fq.node) for r in _shk.returns_of(fq.node)]
+        return [norm(x) for x in r_ if isinstance(x, ast.Call) and norm(x.func) in ("self.__class__", "type(self)")]
+    ck.check(built(f) == ["self.__class__(copy.copy(self._magnitude), self._units)"], "G-TAG", "PlainQuantity.__copy__|same-units-copied-magnitude", f.loc(), "copy of the magnitude, same units", "Quantity.__copy__ no longer rebuilds from a copy of the magnitude and the same units")
     f = ix.func(PQ, "PlainQuantity.__deepcopy__")
-    ck.check("copy.deepcopy(self._magnitude, memo), copy.deepcopy(self._units, memo)" in norm(f.node), "G-TAG", "PlainQuantity.__deepcopy__|deep-copies-both-fields", f.loc(), "deep copies of magnitude and units", "Quantity.__deepcopy__ no longer deep-copies magnitude and units")
+    ck.check(built(f) == ["self.__class__(copy.deepcopy(self._magnitude, memo), copy.deepcopy(self._units, memo))"], "G-TAG", "PlainQuantity.__deepcopy__|deep-copies-both-fields", f.loc(), "deep copies of magnitude and units", "Quantity.__deepcopy__ no longer deep-copies magnitude and units")
     f = ix.func(PU, "PlainUnit.__copy__")
     ck.check("self.__class__(self._units)" in norm(f.node), "G-TAG", "PlainUnit.__copy__|same-units", f.loc(), "same units", "Unit.__copy__ no longer rebuilds from the same units")
     f = ix.func(PU, "PlainUnit.__deepcopy__")
@@ -160,9 +179,17 @@ def run(ck, ix, tier):
     chk = ix.func(U, "SharedRegistryObject._check")
     ck.analysed(chk)
     cfg = cfg_of(chk)
-    t = [n.id for n in cfg.nodes if n.kind == "test" and norm(n.ast) == "isinstance(other, SharedRegistryObject)"]
-    ck.check(bool(t) and all(edge_leads_only_to_raise(cfg, x, "t") is None for x in t), "G-DOM", "_check|foreign-registry-object-raises", chk.loc(), "an object of another registry raises ValueError", "_check no longer raises for objects of another registry")
-    ck.check("self._REGISTRY is getattr(other, '_REGISTRY', None)" in norm(chk.node), "G-DOM", "_check|identity-of-registries", chk.loc(), "same registry by identity", "_check no longer compares registries by identity")
+    from .. import shape as _sh18
+    # three outcomes: same registry (identity) -> True; a registry object of another registry -> ValueError; anything else -> False
+    same = lambda a_: isinstance(a_, ast.Compare) and isinstance(a_.ops[0], ast.Is) and sorted([_sh18.rnorm(a_.left, chk.node), _sh18.rnorm(a_.comparators[0], chk.node)]) == sorted(["self._REGISTRY", "getattr(other, '_REGISTRY', None)"])
+    shared = lambda a_: norm(a_) == "isinstance(other, SharedRegistryObject)"
+    rets = _sh18.returns_of(chk.node)
+    raises = [r for r in walk_local(chk.node) if isinstance(r, ast.Raise)]
+    okT = any(isinstance(r.value, ast.Constant) and r.value.value is True and _sh18.holds_at(r, chk.node, same, True) for r in rets) and all(not (isinstance(r.value, ast.Constant) and r.value.value is True) or _sh18.holds_at(r, chk.node, same, True) for r in rets)
+    ck.check(okT, "G-DOM", "_check|identity-of-registries", chk.loc(), "True exactly when both objects carry the same registry (by identity)", "_check no longer answers True only when the registries are identical (`is`)")
+    okR = len(raises) >= 1 and all("ValueError" in norm(r) and _sh18.holds_at(r, chk.node, same, False) and _sh18.holds_at(r, chk.node, shared, True) for r in raises)
+    okF = all(not (isinstance(r.value, ast.Constant) and r.value.value is False) or (_sh18.holds_at(r, chk.node, same, False) and _sh18.holds_at(r, chk.node, shared, False)) for r in rets)
+    ck.check(okR and okF, "G-DOM", "_check|foreign-registry-object-raises", chk.loc(), "an object of another registry raises ValueError, a non-registry object gives False", "_check no longer raises for (exactly) the registry objects of another registry")
     n_b = 0
     BIN = ["_add_sub", "_iadd_sub", "_mul_div", "_imul_div", "__floordiv__", "__ifloordiv__", "__rfloordiv__", "__mod__", "__imod__", "__rmod__", "__divmod__", "__rdivmod__", "compare"]
     for name in BIN:
